@@ -270,13 +270,16 @@ def rule_refuse_unknown(repo, col):
         for n in cfg.stmt_nodes():
             if n.kind == 'head' and isinstance(n.stmt, ast.If):
                 t = n.stmt.test
+                # `if kind not in R: raise` or `if kind in R: ... else:
+                # raise`: the branch taken for an unknown kind raises
                 if isinstance(t, ast.Compare) and len(t.ops) == 1 and \
-                        isinstance(t.ops[0], ast.NotIn) and \
-                        isinstance(t.left, ast.Name) and t.left.id == kind \
-                        and any(isinstance(b, ast.Raise)
-                                for b in n.stmt.body):
-                    guard = n
-                    break
+                        isinstance(t.ops[0], (ast.NotIn, ast.In)) and \
+                        isinstance(t.left, ast.Name) and t.left.id == kind:
+                    refusing = n.stmt.body if isinstance(
+                        t.ops[0], ast.NotIn) else n.stmt.orelse
+                    if any(isinstance(b, ast.Raise) for b in refusing):
+                        guard = n
+                        break
         if guard is None:
             col.bad(rule, ERR, q, 'guard', f,
                     'no `if %s not in <registry>: raise` refusal' % kind)
